@@ -916,6 +916,26 @@ func c07RunLocal(c *Case) (string, []Fail) {
 		return res.output(), fails
 	case 2:
 		return c07RunSample(c)
+	case 4, 5:
+		// kinds 0 / 1 on one P (the pooled LogRecord comes back) + the neighbour-independence oracle (c07_wave4.go)
+		cf, s, z, ok := c07DecodeConf(c)
+		if !ok {
+			return "cfgerr", nil
+		}
+		var res c07RunResult
+		if c.Kind == 4 {
+			seq, ok := c07Sequence(s, z)
+			if !ok {
+				return "cfgerr", nil
+			}
+			res = c07RunPooled(func() c07RunResult { return c07RunSequence(cf, seq) })
+		} else {
+			res = c07RunPooled(func() c07RunResult { return c07RunStream(cf, s, z) })
+		}
+		what := c07DescribeCase(c)
+		fails := c07Oracle(cf, &res, nil, what)
+		fails = append(fails, c07AloneOracle(cf, &res, what)...)
+		return res.output(), fails
 	}
 	return "badcase", nil
 }
